@@ -291,3 +291,27 @@ func containsAll(s string, subs ...string) bool {
 	}
 	return true
 }
+
+// sliceLitElems: for `slice t[:]` of a `new [k]T` temporary (variadic packing or
+// slice literal), the values stored into the array elements, in index order.
+func sliceLitElems(v ssa.Value) []ssa.Value {
+	sl, ok := v.(*ssa.Slice)
+	if !ok {
+		return nil
+	}
+	al, ok := sl.X.(*ssa.Alloc)
+	if !ok || al.Referrers() == nil {
+		return nil
+	}
+	var out []ssa.Value
+	for _, ref := range *al.Referrers() {
+		if ia, ok := ref.(*ssa.IndexAddr); ok && ia.Referrers() != nil {
+			for _, r2 := range *ia.Referrers() {
+				if st, ok := r2.(*ssa.Store); ok && st.Addr == ssa.Value(ia) {
+					out = append(out, st.Val)
+				}
+			}
+		}
+	}
+	return out
+}
